@@ -8,6 +8,7 @@ import (
 	"errors"
 	"net"
 	"net/http"
+	"sync"
 	"time"
 
 	"github.com/julienschmidt/httprouter"
@@ -138,6 +139,9 @@ type Frontend struct {
 	tlsSrv *http.Server
 	tlsCfg *tls.Config
 
+	// wg counts the post-response hooks still running.
+	wg sync.WaitGroup
+
 	logic frontend.TrackerLogic
 	Config
 }
@@ -228,7 +232,16 @@ func (f *Frontend) Stop() stop.Result {
 		stopGroup.AddFunc(f.makeStopFunc(f.tlsSrv))
 	}
 
-	return stopGroup.Stop()
+	c := make(stop.Channel)
+	go func() {
+		errs := stopGroup.Stop().Wait()
+		// No handler is active any more; wait for the post-response hooks
+		// they started.
+		f.wg.Wait()
+		c.Done(errs...)
+	}()
+
+	return c.Result()
 }
 
 func (f *Frontend) makeStopFunc(stopSrv *http.Server) stop.Func {
@@ -338,7 +351,11 @@ func (f *Frontend) announceRoute(w http.ResponseWriter, r *http.Request, ps http
 		return
 	}
 
-	go f.logic.AfterAnnounce(ctx, req, resp)
+	f.wg.Add(1)
+	go func() {
+		defer f.wg.Done()
+		f.logic.AfterAnnounce(ctx, req, resp)
+	}()
 }
 
 // scrapeRoute parses and responds to a Scrape.
@@ -397,5 +414,9 @@ func (f *Frontend) scrapeRoute(w http.ResponseWriter, r *http.Request, ps httpro
 		return
 	}
 
-	go f.logic.AfterScrape(ctx, req, resp)
+	f.wg.Add(1)
+	go func() {
+		defer f.wg.Done()
+		f.logic.AfterScrape(ctx, req, resp)
+	}()
 }
